@@ -1724,7 +1724,10 @@ class FnTranslator:
         fn = "(fun %s %s => do\n%s)" % (tup, xp, "\n".join(emit_m(bir, 8)))
         if ctx.get("ret"):
             r, v = self.fresh("lr"), self.fresh("rv")
-            rt = self.u.lt(self.out_type(), False)
+            # the result type is printed when the function is emitted (like `LazyTy`): a structure it mentions can still
+            # gain type parameters while the rest of the body is translated (b0809, approver.rs `MemoApprover`)
+            late = self.u.__dict__.setdefault("late_types", {})
+            rt = "⟦late%d⟧" % len(late); late[rt] = self.out_type()
             pre.append(("bind", r, MCall("Rs.loopM (ρ := %s) %s %s %s" % (rt, lst, tup, fn))))
             return self.wrap(pre, Match(r, [(".inl %s" % tup, cont(env)), (".inr %s" % v, self.ret_value(v))]))
         pre.append(("bind", tup, MCall("Rs.loopB %s %s %s" % (lst, tup, fn))))
@@ -3101,4 +3104,7 @@ def fn_lean_lines(info):
     else:
         L.append("def %s%s : %s :=" % (info.lean_name, sig, rt))
         L += emit_p(info.ir, 2)
+    late = getattr(u, "late_types", None)
+    if late:
+        L = [re.sub(r"⟦late\d+⟧", lambda m: u.lt(late[m.group(0)], False), l) if "⟦late" in l else l for l in L]
     return L
